@@ -783,26 +783,30 @@ x
             else:
                 return np.zeros(self.V), np.zeros(self.V)
         adj = self.to_coo_matrix().tocsr()
-        s1 = adj.sum(0)
-        s2 = adj.sum(1)
+        s1 = np.asarray(adj.sum(0)).ravel()
+        s2 = np.asarray(adj.sum(1)).ravel()
+
+        def scaling(s, power):
+            # nothing is performed where the sum is 0
+            r = np.ones(self.V)
+            r[s != 0] = 1. / s[s != 0] ** power
+            return dia_matrix((r, 0), shape=(self.V, self.V))
+
         if c == 1:
-            s = dia_matrix((1. / s1, 0), shape=(self.V, self.V))
-            adj = adj * s
-            self.weights = wgraph_from_adjacency(adj).get_weights()
-            return np.asarray(s1)
+            adj = adj * scaling(s1, 1)
+            out = np.reshape(s1, (1, self.V))
         if c == 0:
-            s = dia_matrix((1. / s2.T, 0), shape=(self.V, self.V))
-            adj = s * adj
-            self.weights = wgraph_from_adjacency(adj).get_weights()
-            return np.asarray(s2)
+            adj = scaling(s2, 1) * adj
+            out = np.reshape(s2, (self.V, 1))
         if c == 2:
-            s1 = dia_matrix((1. / np.sqrt(s1), 0),
-                            shape=(self.V, self.V))
-            s2 = dia_matrix((1. / np.sqrt(adj.sum(1)), 0),
-                            shape=(self.V, self.V))
-            adj = (s1 * adj) * s2
-            self.weights = wgraph_from_adjacency(adj).get_weights()
-            return np.asarray(s1), np.asarray(s2)
+            adj = (scaling(s1, .5) * adj) * scaling(s2, .5)
+            out = (scaling(s1, .5), scaling(s2, .5))
+        # the edges are those of the normalized matrix (row-major, no repeat)
+        normalized = wgraph_from_coo_matrix(adj.tocoo())
+        self.E = normalized.E
+        self.edges = normalized.edges
+        self.weights = normalized.weights
+        return out
 
     def set_euclidian(self, X):
         """
